@@ -277,6 +277,7 @@ impl Scheduler for SimScheduler {
             self.local.switches += 1;
         }
         self.local.recorded.push(choice as u32);
+        rt::set_scheduled_task(Some(choice));
         // Publishing on every step keeps the recording available even if the execution is
         // abandoned by a panic; it is a clone of a small struct plus a vector, so only do it
         // periodically and rely on `Drop` for the tail.
